@@ -249,6 +249,11 @@ class C01(PropOracle):
             return
         if not d["jobs"]:
             self.v(w, f"empty batch {rec['N']} handed to the HPC", "empty-batch")
+        have = disk_rows(w)
+        for j in d["jobs"]:
+            if j in have and len([p for p in o.placed.get(j, []) if p[3] == o.epoch]) <= 1:
+                self.v(w, f"job {j} is handed to the HPC in batch {rec['N']} although it already has a recorded result {have[j][0][:2]}",
+                       "placed-with-result")
         if len(set(d["jobs"])) != len(d["jobs"]):
             self.v(w, f"batch {rec['N']} lists a job twice: {d['jobs']}", "dup-in-batch")
         for j in d["jobs"]:
@@ -894,6 +899,8 @@ class C16(PropOracle):
             self.v(w, f"setup command run {cnt('setup')} times", "setup-count")
         if c.get("is_complete") or local:
             ncomp = max(o.completions, 1) if not local else 1
+            if any(a.get("name", "").startswith("resub") for a in w.scen.get("actors", [])) and o.completions < 2:
+                self.v(w, f"resubmission scenario ended with {o.completions} completion(s)", "resubmission-did-not-complete")
             if hooks.get("teardown") and cnt("teardown") != ncomp:
                 self.v(w, f"teardown command run {cnt('teardown')} times for {ncomp} completion(s)", "teardown-count")
         # per batch
@@ -1017,6 +1024,10 @@ class C13(PropOracle):
             a["crashed"] = True
             if not a["complete"]:
                 self._check_refusal(w, vp, a)
+            else:
+                c = read_json(w.rootp + "cluster_config.json") or {}
+                if c.get("is_complete") and full_rows(w) == a["rows"]:
+                    a["aborted"] = True  # gave up before changing anything (e.g. somebody else is submitter)
 
     def _check_refusal(self, w, vp, a):
         if a["code"] != 1:
@@ -1040,16 +1051,21 @@ class C13(PropOracle):
 
     def on_launch(self, w, vp, d):
         # dependency order inside a resubmission: a rerun blocker needs a NEW row (old ones were erased)
-        cm = [c for c in self.cmds if c["complete"]]
+        cm = [c for c in self.cmds if c["complete"] and not c.get("aborted")]
         if not cm:
             return
         a = cm[-1]
         j = d["job"]
+        by = {x["name"]: x for x in w.scen["jobs"]}
+        rows_now = w.obs.launch_log[-1]["rows"]
+        early = sorted(b for b in by[j]["blocked_by"] if b in a["rerun"] and b not in rows_now) if j in by else []
+        if early:
+            self.v(w, f"rerun job {j} started before its rerun blockers {early} have new outcomes", "rerun-order")
         if j not in a["rerun"]:
             self.v(w, f"job {j} was rerun although it is neither selected ({sorted(a['selected'])}, flags {a['flags']}) nor a dependent", "unselected-job-rerun")
 
     def on_end(self, w, vp, d):
-        cm = [c for c in self.cmds if c["complete"]]
+        cm = [c for c in self.cmds if c["complete"] and not c.get("aborted")]
         o = w.obs
         c = o.cluster or {}
         failed_cmds = [x for x in self.cmds if x.get("crashed") or (x["complete"] and x.get("code") not in (0,))]
